@@ -10,18 +10,24 @@
     AM/PM in any letter case — each consumes exactly its rendering and makes exactly its setter call;
   * `items_invert` (induction over the item list), `case_and_space_perturbation`;
   * `family_roundtrip_partial`: the round trip equals the resolution of the value's own fields.
-  Not proved (compared with the crate and checked by the round-trip oracle only): signed years
-  `%Y`/`%G`, `%s`, the fraction items, offsets `%z`/`%:z`, `%+`, and the final step through C14's
-  completeness theorems; see the docstring of `family_roundtrip_partial`.
+  * second stage: `item_inverts_year` (signed, 5–6 digit, every padding), `item_inverts_timestamp`,
+    `item_inverts_fraction`, `item_inverts_offset`, the unified `item_inverts` for a value's context;
+    `chain_from_separated` (the token chain derived from the syntactic `Spec.separated`);
+    `family_roundtrip` (+ `_date`, `_time`, `_naive`, `_zoned`): parse ∘ format =
+    `truncate_to_precision`, composed with C14's `date_complete`, `time_complete`,
+    `datetime_complete_fields`.
+  Not proved (compared with the crate and checked by the round-trip oracle only): `%+`, timestamp-only
+  formats, and the other members listed in the docstring of `family_roundtrip_partial`.
   Concrete parser runs cannot be closed by `decide`: `Scan.number` is defined by mutual (well-founded)
   recursion, which the kernel does not unfold; the examples go through the theorems instead.
 -/
-import Chrono.Proofs.RoundTripL
+import Chrono.Proofs.RoundTripFamilyL
 import Chrono.Spec.UnambiguousSpec
 import Chrono.Extracted.ParseTable
 
 namespace Chrono.Props.C13
 open Chrono Chrono.M Chrono.M.Scan Chrono.M.ParseFrom Chrono.Spec Chrono.Proofs.RoundTrip Chrono.Extracted
+open Chrono.Proofs.ParsedRes (VD)
 
 /-! ## the parser's numeric table is the one in the source -/
 
@@ -265,20 +271,22 @@ theorem case_and_space_perturbation (is : List Item) (tks tks' : List Tok) (rest
     Parse.parse_internal p (flatText tks' ++ rest) is = Parse.parse_internal p (flatText tks ++ rest) is := by
   rw [items_invert _ _ _ _ h, items_invert _ _ _ _ h', applyAll_congr tks tks' p hs]
 
-/-- the round trip, reduced to field resolution.  If formatting `v` with the items renders token by
-token (`hfmt`), every item inverts its token in front of the following ones (`hchain`, supplied by
-the `item_inverts_*` theorems), and the setter calls succeed on an empty record (`hset`), then
-`parse_from_str` of the formatted text is the resolution of exactly those fields.  What is missing
-for the full `family_roundtrip` (`Unambiguous is T → expressible is v → parse_from_str T (format v) =
-ok (truncate_to_precision is v)`): (1) deriving `hchain` from the syntactic `Spec.separated` for the
-items not covered by an `item_inverts_*` theorem yet (`%Y`/`%G` signed years, `%s`, the fraction items
-`%f %.f %.3f %.6f %.9f %3f %6f %9f`, the offsets `%z %:z`, a white-space item followed by a
-space-padded number); (2) `resolve T p' = ok (truncate …)`, which is C14's completeness
-(`Chrono.Props.C14.date_complete`, `time_complete`, `datetime_complete_fields`; their hypotheses
-`DateAgrees`/`TimeAgrees`/`timestampIs` still have to be derived from the record the setter calls
-build, and the ISO-only and timestamp-only members are outside those theorems).  Until then this family is covered by the correspondence, by the round-trip oracle
-run on the implementation, and by the validation of the specification against the implementation
-(`pf.sp`). -/
+/-- the round trip, reduced to field resolution — the generic glue for the members of the family that
+`family_roundtrip` (below) does not cover.  If formatting `v` renders token by token (`hfmt`), every item
+inverts its token in front of the following ones (`hchain`) and the setter calls succeed on an empty
+record (`hset`), then `parse_from_str` of the formatted text is the resolution of exactly those fields.
+Members of the family NOT covered by `family_roundtrip`, for which only this reduction is proved (they
+are compared with the crate, checked by the round-trip oracle and by the validation of the
+specification `pf.sp`):
+* `%+` (the RFC 3339 item: its reader is `parse_rfc3339_relaxed`, for which there is no item lemma;
+  C10's round trip is about the strict `parse_from_rfc3339`);
+* formats that carry the instant only as a timestamp (`%s` alone, `%s %z`) for `NaiveDateTime` /
+  `DateTime`: C14 has no completeness theorem for the resolver's timestamp fall-back path;
+* white-space items of the *format* that contain non-ASCII white space, a fraction item directly after
+  a white-space item, the `Z`-printing offset items (no specifier produces them);
+* zone-aware values whose local reading leaves the supported range;
+* that formatting a member of the family succeeds is a hypothesis of `family_roundtrip`, not a
+  conclusion. -/
 theorem family_roundtrip_partial (T : Target) (fmt : List Nat) (v : Value) (tks : List Tok) (p' : Parsed)
     (hT : v.target = T)
     (hfmt : format v fmt = Format.wok (flatText tks))
@@ -289,6 +297,203 @@ theorem family_roundtrip_partial (T : Target) (fmt : List Nat) (v : Value) (tks 
     rw [items_invert _ _ _ _ hchain, hset]; rfl
   rw [List.append_nil] at hp
   simp only [roundtrip, hfmt, Format.wok, parse_from_str, fields, Parse.parse, hp, hT]
+
+/-! ## `item_inverts` for the signed, unbounded and offset items (second stage) -/
+
+/-- `%Y` / `%G` with every padding and every year of the `i32`-sized range (negative, 5–6 digits
+included): `write_year` prints four digits for 0–9999 when zero-padded (and always for 1000–9999),
+otherwise a sign and the digits; the reader returns exactly that year, provided the text is followed
+by a non-digit — or the year is 0–9999 and zero-padded, in which case the four digits fill the
+reader's width -/
+theorem item_inverts_year (n : Numeric) (hn : n = .year ∨ n = .isoYear) (y : Int)
+    (hy : -1000000000 < y ∧ y < 1000000000) (pad : Pad) (rest : List Nat)
+    (hrest : StopsDigits rest ∨ (pad = .zero ∧ 0 ≤ y ∧ y ≤ 9999)) :
+    ∃ text, Format.write_year y pad = Format.wok text ∧
+      InvertsAt (.numeric n pad) ⟨text, fun p => (Parse.numericSpec n).2.2 p y⟩ rest := by
+  obtain ⟨text, e1, e2⟩ := write_year_text y pad hy
+  rcases hn with rfl | rfl
+  · exact ⟨text, e1, snum_inverts .year pad text rest y _ rfl e2 hrest⟩
+  · exact ⟨text, e1, snum_inverts .isoYear pad text rest y _ rfl e2 hrest⟩
+
+/-- `%s`: the signed decimal of the timestamp (signed since the repair of finding #15), any padding,
+followed by a non-digit -/
+theorem item_inverts_timestamp (ts : Int) (h : -100000000000000000 < ts ∧ ts < 100000000000000000)
+    (pad : Pad) (rest : List Nat) (hrest : StopsDigits rest) :
+    InvertsAt (.numeric .timestamp pad) ⟨Format.write_n 9 ts pad false, fun p => p.set_timestamp ts⟩ rest :=
+  snum_inverts .timestamp pad _ rest ts False rfl (write_timestamp_text ts pad h) (Or.inl hrest)
+
+/-- the fraction items: `%f` (nine digits when zero-padded, else followed by a non-digit), `%.3f
+%.6f %.9f` and a non-empty `%.f` (a dot and `k` digits, followed by a non-digit), the empty `%.f` of a
+whole second (nothing is read unless a dot follows), `%3f %6f %9f` (exactly `k` digits, whatever
+follows); each sets the nanosecond field to the printed digits scaled to nanoseconds -/
+theorem item_inverts_fraction (v : Int) (k : Nat) (h0 : 0 ≤ v) (hlt : v < ((10 ^ k : Nat) : Int)) (rest : List Nat) :
+    (k = 9 → ∀ pad, (StopsDigits rest ∨ pad = .zero) →
+      InvertsAt (.numeric .nanosecond pad) ⟨Format.write_n 9 v pad false, fun p => p.set_nanosecond v⟩ rest) ∧
+    (1 ≤ k → k ≤ 9 → StopsDigits rest →
+      ∀ f, (f = .nanosecond ∨ f = .nanosecond3 ∨ f = .nanosecond6 ∨ f = .nanosecond9) →
+      InvertsAt (.fixed f) ⟨46 :: Format.fmtInt v k .zero false,
+        fun p => p.set_nanosecond (v * ((10 ^ (9 - k) : Nat) : Int))⟩ rest) ∧
+    ((∀ t, rest ≠ 46 :: t) → InvertsAt (.fixed .nanosecond) ⟨[], .ok⟩ rest) ∧
+    (∀ f, ((f = .nanosecond3NoDot ∧ k = 3) ∨ (f = .nanosecond6NoDot ∧ k = 6) ∨ (f = .nanosecond9NoDot ∧ k = 9)) →
+      InvertsAt (.fixed f) ⟨Format.fmtInt v k .zero false,
+        fun p => p.set_nanosecond (v * ((10 ^ (9 - k) : Nat) : Int))⟩ rest) := by
+  refine ⟨fun hk pad hr => ?_, fun h1 h9 hr f hf => frac_dot_inverts f hf v k h0 h1 h9 hlt rest hr,
+    fun h => frac_empty_inverts rest h, fun f hf => frac_nodot_inverts f k hf v h0 hlt rest⟩
+  subst hk
+  have h := unum_inverts .nanosecond pad _ rest _ 9 _ rfl rfl
+    (write_nano_text v pad ⟨h0, by norm_num at hlt; omega⟩) hr
+  have e : ((v.toNat : Nat) : Int) = v := by omega
+  rw [e] at h; exact h
+
+/-- `%z` (`+hhmm`) and `%:z` (`+hh:mm`): the writer prints the offset rounded to the nearest minute,
+the reader returns exactly the printed offset.  So a whole-minute offset comes back unchanged; an
+offset with seconds comes back as `Spec.roundedOffset` (29 s round down, 30 s up, in magnitude), and
+|offset| ≥ 86370 s would print as ±24:00, which is not an offset (`Spec.expressible` excludes it). -/
+theorem item_inverts_offset (f : Fixed) (hf : f = .timezoneOffset ∨ f = .timezoneOffsetColon)
+    (d : Option Date) (t : Option Time) (name : List Nat) (off : Int) (hoff : -86400 < off ∧ off < 86400)
+    (rest : List Nat) :
+    ∃ text, Format.format_fixed d t (some (name, off)) f = Format.wok text ∧
+      InvertsAt (.fixed f) ⟨text, fun p => p.set_offset (roundedOffset off)⟩ rest ∧
+      (off % 60 = 0 → roundedOffset off = off) := by
+  obtain ⟨sg, body, _, e1, e2⟩ := offset_inverts f hf d t name off hoff rest
+  exact ⟨_, e1, e2, rounded_of_whole off⟩
+
+/-- **`item_inverts`, every proved item at once, for a value's context**: whatever `format_item`
+writes for the item is read back — consuming exactly that text — by the setter call `Spec.fieldCall`
+(the item's own field of the value), provided the rest of the text satisfies `Spec.RestOk` for the
+item.  Proved items (`Spec.provedItem`): literals, ASCII white space, all 21 numeric items, names,
+am/pm, all seven fraction items, `%z`, `%:z`. -/
+theorem item_inverts (c : Ctx) (hc : CtxOk c) (it : Item) (hp : provedItem it = true) (text : List Nat)
+    (hfmt : Format.format_item c.date c.time c.off it = Format.wok text) (hexp : ItemExpr c it)
+    (rest : List Nat) (hrest : RestOk c it rest) :
+    ∃ set, fieldCall c it = some set ∧ InvertsAt it ⟨text, set⟩ rest :=
+  item_inverts_ctx c hc it hp text hfmt hexp rest hrest
+
+/-! ## the token chain from the syntactic predicate `Spec.separated` -/
+
+/-- for an item list of proved items that is `separated` (and `spaceSafe`), the formatted text
+splits into one token per item — the item's rendering with the item's field call — and these tokens
+form a chain: every item inverts its token in front of the following ones (a white-space item may be
+followed by an item whose reader skips white space itself) -/
+theorem chain_from_separated (c : Ctx) (hc : CtxOk c) (is : List Item) (text : List Nat)
+    (hp : ∀ it ∈ is, provedItem it = true) (hexp : ∀ it ∈ is, ItemExpr c it)
+    (hsep : separated is = true) (hsafe : spaceSafe is = true) (hy : YearOk c is)
+    (hfmt : Format.formatItemsR c.date c.time c.off is = Format.wok text) :
+    ∃ tks, TokensOf c is tks ∧ flatText tks = text ∧ Chain2 is tks [] ∧
+      Parse.parse_internal Parsed.new text is = (applyAll tks Parsed.new).map fun p' => (p', []) := by
+  obtain ⟨tks, htk, hflat⟩ := tokens_exist c hc is text hp hexp hfmt
+  have hch := chain_of_separated c hc is tks htk hp hexp hsep hsafe hy
+  have := chain2_parse is tks [] Parsed.new hch
+  rw [List.append_nil, hflat] at this
+  exact ⟨tks, htk, hflat, hch, this⟩
+
+/-! ## `family_roundtrip`: parse ∘ format = truncate_to_precision, per target type
+
+Hypotheses common to the four theorems: the format's items are proved items (`Spec.provedItem`: every
+invertible item except non-ASCII white space written *in the format* and the `Z`-printing offset items,
+which no specifier produces), the format is in the family (`Spec.Unambiguous`), a white-space item is
+followed by a number, an offset, a name, am/pm, a visible literal or the end (`Spec.spaceSafe`), the
+value is expressible (`Spec.expressible`), and formatting succeeded with text `text`.  The value is an
+existing day `dateOfYo Y o` with `VD Y o` (C01: every `NaiveDate` is one) and a valid time of day. -/
+
+theorem parse_from_str_of (T : Target) (fmt text : List Nat) (p' : Parsed) (r : Parsed.RP Value)
+    (h1 : Parse.parse Parsed.new text (Strftime.items fmt) = .ok p') (h2 : resolve T p' = r) :
+    parse_from_str T text fmt = r := by
+  simp only [parse_from_str, fields, h1, h2]
+
+/-- dates: `NaiveDate::parse_from_str(&d.format(fmt).to_string(), fmt) == Ok(d)` — calendar, ordinal,
+Sunday-week, Monday-week and ISO-week forms, signed and 5–6-digit years, `%C%y`, the `%y` pivot, names,
+every padding -/
+theorem family_roundtrip_date (fmt : List Nat) (Y : Int) (o : Nat) (hvd : VD Y o) (text : List Nat)
+    (hp : ∀ it ∈ Strftime.items fmt, provedItem it = true) (hU : Unambiguous (Strftime.items fmt) .date)
+    (hsafe : spaceSafe (Strftime.items fmt) = true) (hE : expressible (Strftime.items fmt) (.date (dateOfYo Y o)))
+    (hfmt : format (.date (dateOfYo Y o)) fmt = Format.wok text) :
+    parse_from_str .date text fmt = .ok (.ok (.date (dateOfYo Y o))) ∧
+    truncate_to_precision (Strftime.items fmt) (.date (dateOfYo Y o)) = some (.date (dateOfYo Y o)) := by
+  obtain ⟨p', h1, h2⟩ := family_date _ Y o hvd text hp hU hsafe hE hfmt
+  exact ⟨parse_from_str_of .date fmt text p' _ h1 h2, rfl⟩
+
+/-- times of day: 24-hour and 12-hour clocks, with or without seconds, leap second `60`, every
+fraction item — the result is the time cut to the printed precision -/
+theorem family_roundtrip_time (fmt : List Nat) (t : Time) (htv : TValid t) (text : List Nat)
+    (hp : ∀ it ∈ Strftime.items fmt, provedItem it = true) (hU : Unambiguous (Strftime.items fmt) .time)
+    (hsafe : spaceSafe (Strftime.items fmt) = true) (hE : expressible (Strftime.items fmt) (.time t))
+    (hfmt : format (.time t) fmt = Format.wok text) :
+    parse_from_str .time text fmt = .ok (.ok (.time (truncTime (Strftime.items fmt) t))) ∧
+    truncate_to_precision (Strftime.items fmt) (.time t) = some (.time (truncTime (Strftime.items fmt) t)) := by
+  obtain ⟨p', h1, h2⟩ := family_time _ t htv text hp hU hsafe hE hfmt
+  exact ⟨parse_from_str_of .time fmt text p' _ h1 h2, rfl⟩
+
+/-- naive date-times whose format has a full date and a full time (a `%s` next to them is allowed
+and cross-checked) -/
+theorem family_roundtrip_naive (fmt : List Nat) (Y : Int) (o : Nat) (hvd : VD Y o) (t : Time) (htv : TValid t)
+    (text : List Nat) (hp : ∀ it ∈ Strftime.items fmt, provedItem it = true)
+    (hU : Unambiguous (Strftime.items fmt) .naive)
+    (hfd : fullDate (carries (Strftime.items fmt)) = true) (hft : fullTime (carries (Strftime.items fmt)) = true)
+    (hsafe : spaceSafe (Strftime.items fmt) = true)
+    (hE : expressible (Strftime.items fmt) (.naive ⟨dateOfYo Y o, t⟩))
+    (hfmt : format (.naive ⟨dateOfYo Y o, t⟩) fmt = Format.wok text) :
+    parse_from_str .naive text fmt = .ok (.ok (.naive ⟨dateOfYo Y o, truncTime (Strftime.items fmt) t⟩)) ∧
+    truncate_to_precision (Strftime.items fmt) (.naive ⟨dateOfYo Y o, t⟩) =
+      some (.naive ⟨dateOfYo Y o, truncTime (Strftime.items fmt) t⟩) := by
+  obtain ⟨p', h1, h2⟩ := family_naive _ Y o hvd t htv text hp hU hfd hft hsafe hE hfmt
+  refine ⟨parse_from_str_of .naive fmt text p' _ h1 h2, ?_⟩
+  simp only [truncate_to_precision, hfd, hft, Bool.and_self, if_true]
+
+/-- zone-aware values whose format has a full date, a full time and an offset item (`%z`, `%:z`) or a
+timestamp: the result is what `Spec.truncate_to_precision` says — the local reading cut to the printed
+precision at the printed, minute-rounded offset — whenever that value exists -/
+theorem family_roundtrip_zoned (fmt : List Nat) (z : Zoned) (Y : Int) (o : Nat) (hvd : VD Y o) (t : Time)
+    (htv : TValid t) (hl : z.overflowing_naive_local = .ok ⟨dateOfYo Y o, t⟩)
+    (hzo : -86400 < z.off ∧ z.off < 86400) (text : List Nat)
+    (hp : ∀ it ∈ Strftime.items fmt, provedItem it = true) (hU : Unambiguous (Strftime.items fmt) .zoned)
+    (hfd : fullDate (carries (Strftime.items fmt)) = true) (hft : fullTime (carries (Strftime.items fmt)) = true)
+    (hot : (carries (Strftime.items fmt)).offset = true ∨ (carries (Strftime.items fmt)).timestamp = true)
+    (hsafe : spaceSafe (Strftime.items fmt) = true) (hE : expressible (Strftime.items fmt) (.zoned z))
+    (hfmt : format (.zoned z) fmt = Format.wok text) (v' : Value)
+    (hv' : truncate_to_precision (Strftime.items fmt) (.zoned z) = some v') :
+    parse_from_str .zoned text fmt = .ok (.ok v') := by
+  obtain ⟨p', h1, h2⟩ := family_zoned _ z Y o hvd t htv hl hzo text hp hU hfd hft hot hsafe hE hfmt
+  exact parse_from_str_of .zoned fmt text p' _ h1 (h2 v' hv')
+
+/-- **`family_roundtrip`** for the proved part of the family, all four target types in one statement:
+`parse_from_str(format(v)) = Ok(truncate_to_precision(v))`.  `ValueOk` collects the value invariants
+(existing day, valid time, offset inside ±24 h, local reading in range), `FieldsForm` says the format
+has the date/time fields its target needs (as opposed to a lone timestamp). -/
+theorem family_roundtrip (fmt : List Nat) (v : Value) (text : List Nat) (v' : Value)
+    (hv : match v with
+      | .date d => ∃ Y o, VD Y o ∧ d = dateOfYo Y o
+      | .time t => TValid t
+      | .naive dt => (∃ Y o, VD Y o ∧ dt.date = dateOfYo Y o) ∧ TValid dt.time
+      | .zoned z => ∃ Y o t, VD Y o ∧ TValid t ∧ z.overflowing_naive_local = .ok ⟨dateOfYo Y o, t⟩ ∧
+          -86400 < z.off ∧ z.off < 86400)
+    (hform : match v with
+      | .date _ | .time _ => True
+      | .naive _ => fullDate (carries (Strftime.items fmt)) = true ∧ fullTime (carries (Strftime.items fmt)) = true
+      | .zoned _ => fullDate (carries (Strftime.items fmt)) = true ∧ fullTime (carries (Strftime.items fmt)) = true ∧
+          ((carries (Strftime.items fmt)).offset = true ∨ (carries (Strftime.items fmt)).timestamp = true))
+    (hp : ∀ it ∈ Strftime.items fmt, provedItem it = true) (hU : Unambiguous (Strftime.items fmt) v.target)
+    (hsafe : spaceSafe (Strftime.items fmt) = true) (hE : expressible (Strftime.items fmt) v)
+    (hfmt : format v fmt = Format.wok text)
+    (hv' : truncate_to_precision (Strftime.items fmt) v = some v') :
+    parse_from_str v.target text fmt = .ok (.ok v') := by
+  cases v with
+  | date d =>
+    obtain ⟨Y, o, hvd, rfl⟩ := hv
+    obtain ⟨h1, h2⟩ := family_roundtrip_date fmt Y o hvd text hp hU hsafe hE hfmt
+    rw [h2] at hv'; cases hv'; exact h1
+  | time t =>
+    obtain ⟨h1, h2⟩ := family_roundtrip_time fmt t hv text hp hU hsafe hE hfmt
+    rw [h2] at hv'; cases hv'; exact h1
+  | naive dt =>
+    obtain ⟨⟨Y, o, hvd, hd⟩, htv⟩ := hv
+    obtain ⟨d, t⟩ := dt
+    simp only at hd htv; subst hd
+    obtain ⟨h1, h2⟩ := family_roundtrip_naive fmt Y o hvd t htv text hp hU hform.1 hform.2 hsafe hE hfmt
+    rw [h2] at hv'; cases hv'; exact h1
+  | zoned z =>
+    obtain ⟨Y, o, t, hvd, htv, hl, hzo⟩ := hv
+    exact family_roundtrip_zoned fmt z Y o hvd t htv hl hzo text hp hU hform.1 hform.2.1 hform.2.2 hsafe hE hfmt v' hv'
 
 /-! ## items outside the family -/
 
@@ -367,5 +572,65 @@ example :
     truncate_to_precision (Strftime.items [37, 121, 45, 37, 109, 45, 37, 100]) (.date ⟨2024 * 8192 + 60 * 16 + 6⟩) =
       some (.date ⟨2024 * 8192 + 60 * 16 + 6⟩) := by
   decide +kernel
+
+/-- `family_roundtrip_date` applies to *every* date with `%Y-%m-%d` (negative and 5–6-digit years
+included): all its hypotheses about the format are closed by evaluation, the value-dependent one
+(`expressible`) holds for every day -/
+example (Y : Int) (o : Nat) (hvd : VD Y o) (text : List Nat)
+    (hfmt : format (.date (dateOfYo Y o)) [37, 89, 45, 37, 109, 45, 37, 100] = Format.wok text) :
+    parse_from_str .date text [37, 89, 45, 37, 109, 45, 37, 100] = .ok (.ok (.date (dateOfYo Y o))) := by
+  have hi : Strftime.items [37, 89, 45, 37, 109, 45, 37, 100] =
+      [.numeric .year .zero, .literal [45], .numeric .month .zero, .literal [45], .numeric .day .zero] := by
+    decide +kernel
+  refine (family_roundtrip_date _ Y o hvd text (by rw [hi]; decide) (by rw [hi]; decide) (by rw [hi]; decide)
+    ?_ hfmt).1
+  rw [hi]
+  obtain ⟨w, hw⟩ := Chrono.Proofs.ParsedRes.iso_week_ok Y o hvd
+  have hc : carries [.numeric .year .zero, .literal [45], .numeric .month .zero, .literal [45], .numeric .day .zero] =
+      { year := true, month := true, day := true } := by decide
+  refine ⟨?_, trivial, trivial, ?_, trivial⟩
+  · simp only [exprYears, shown, onSome, onOk, hw, hc]
+    refine ⟨⟨fun h => (by cases h), fun h => (by cases h), fun h => (by cases h), fun h => ?_⟩,
+      ⟨fun _ _ h => (by cases h), fun h => (by cases h), fun h => (by cases h), fun h => ?_⟩⟩
+    · exact absurd h (by decide)
+    · exact absurd h (by decide)
+  · intro h; rw [hc] at h; cases h
+
+/-- the same for every valid time of day with `%H:%M:%S%.f` (leap second `60` and every fraction) -/
+example (t : Time) (htv : Chrono.Spec.TValid t) (hleap : 1000000000 ≤ t.frac → t.secs % 60 = 59) (text : List Nat)
+    (hfmt : format (.time t) [37, 72, 58, 37, 77, 58, 37, 83, 37, 46, 102] = Format.wok text) :
+    parse_from_str .time text [37, 72, 58, 37, 77, 58, 37, 83, 37, 46, 102] = .ok (.ok (.time t)) := by
+  have hi : Strftime.items [37, 72, 58, 37, 77, 58, 37, 83, 37, 46, 102] =
+      [.numeric .hour .zero, .literal [58], .numeric .minute .zero, .literal [58], .numeric .second .zero,
+       .fixed .nanosecond] := by decide +kernel
+  have h := (family_roundtrip_time _ t htv text (by rw [hi]; decide) (by rw [hi]; decide) (by rw [hi]; decide)
+    ?_ hfmt).1
+  · rw [h, hi]
+    have hfd : fracDigits [.numeric .hour .zero, .literal [58], .numeric .minute .zero, .literal [58],
+        .numeric .second .zero, .fixed .nanosecond] = 9 := by decide
+    have hc : (carries [.numeric .hour .zero, .literal [58], .numeric .minute .zero, .literal [58],
+        .numeric .second .zero, .fixed .nanosecond]).second = true := by decide
+    obtain ⟨_, _, t3, t4⟩ := htv
+    have e9 := (cutFrac_forms t.frac).1
+    have : truncTime [.numeric .hour .zero, .literal [58], .numeric .minute .zero, .literal [58],
+        .numeric .second .zero, .fixed .nanosecond] t = t := by
+      simp only [truncTime, hc, hfd, e9, Bool.true_eq_false, if_false]
+      cases t with
+      | mk secs frac =>
+        simp only [Time.mk.injEq, true_and]
+        simp only at t3 t4
+        split <;> omega
+    rw [this]
+  · rw [hi]
+    refine ⟨trivial, ?_, trivial, ?_, ?_⟩
+    · simpa [exprLeap, shown, onSome] using hleap
+    · intro h; exact absurd h (by decide)
+    · simp only [exprFrac, shown, onSome]
+      intro it hm
+      have hfd : fracDigits [.numeric .hour .zero, .literal [58], .numeric .minute .zero, .literal [58],
+          .numeric .second .zero, .fixed .nanosecond] = 9 := by decide
+      rw [hfd]
+      simp only [List.mem_cons, List.not_mem_nil, or_false] at hm
+      rcases hm with rfl | rfl | rfl | rfl | rfl | rfl <;> simp [itemFracDigits]
 
 end Chrono.Props.C13
